@@ -475,6 +475,8 @@ def run_plan(plan):
                     "long-lived-instance-stale"
                 cause = plan["mismatch"] and f"mismatched-{plan['mismatch']}" \
                     or (plan["stale"] and "stale") or "fresh"
+                if isinstance(va, str) and va.startswith("EXC:"):
+                    cause += "/raised-" + va[4:]
                 viol(f"{cls}/{kind}/{cause}",
                      f"node {who} {key!r:.120} -> {va!r:.160}; node B "
                      f"(accelerators stripped) -> {vb!r:.160}; {ctx}")
